@@ -88,7 +88,8 @@ func (c *fnCtx) enterLoop(b *ssa.BasicBlock, preds []*ssa.BasicBlock, conds []st
 		if li.mods.Top {
 			// everything was havocked (new heap epoch): tie the keys that were in use before the loop to their
 			// entry values, so that a first-iteration model is a run from the function entry
-			for k, old := range li.entrySt.m {
+			for _, k := range sortedStateKeys(li.entrySt) {
+				old := li.entrySt.m[k]
 				if k == "$wm" || strings.HasPrefix(k, "ghost:") {
 					continue
 				}
@@ -107,7 +108,8 @@ func (c *fnCtx) enterLoop(b *ssa.BasicBlock, preds []*ssa.BasicBlock, conds []st
 			}
 		}
 		if !li.mods.Top {
-			for k, t := range c.st.m {
+			for _, k := range sortedStateKeys(c.st) {
+				t := c.st.m[k]
 				if k == "$wm" {
 					continue
 				}
@@ -571,4 +573,13 @@ func (c *fnCtx) outerBoundsOf(li *loopInfo) []ssa.Value {
 	}
 	li.outerB = res
 	return res
+}
+
+func sortedStateKeys(st *State) []string {
+	ks := make([]string, 0, len(st.m))
+	for k := range st.m {
+		ks = append(ks, k)
+	}
+	sort.Strings(ks)
+	return ks
 }
